@@ -78,11 +78,29 @@ def join(c, s1, s2):
     """merge two states that split on c (s1 under c, s2 under not c)"""
     if s1.dead: return s2
     if s2.dead: return s1
-    env = {}
+    env = {}; arrs = []
     for k in s1.env:
         if k in s2.env:
             a, b = s1.env[k], s2.env[k]
             if a is b: env[k] = a; continue
             try: env[k] = merge(c, a, b)
-            except Unsupported: pass      # variable unusable after the join (shape conflict): a later read is Unsupported
-    return State(simp(OR(s1.pc, s2.pc)), env, merge_heaps(c, s1.heap, s2.heap), merge_logs(c, s1.log, s2.log))
+            except Unsupported:
+                # a local bound to different array objects in the two branches (`m = a` / `m = p @ a @ q`): handled below, once the heaps are
+                # merged; any other shape conflict makes the variable unusable after the join (a later read is Unsupported)
+                if isinstance(a, VRef) and isinstance(b, VRef) and a.cls == b.cls: arrs.append((k, a, b))
+    heap = merge_heaps(c, s1.heap, s2.heap)
+    for k, a, b in arrs:
+        oa, ob = s1.heap.get(a.oid), s2.heap.get(b.oid)
+        if oa is None or ob is None or "$a" not in oa or "$a" not in ob: continue
+        try: data = _merge_arr(c, oa["$a"], ob["$a"])
+        except Unsupported: continue
+        new = new_oid(); heap[new] = {"$a": data}; env[k] = VRef(a.cls, new)
+    return State(simp(OR(s1.pc, s2.pc)), env, heap, merge_logs(c, s1.log, s2.log))
+
+
+def _merge_arr(c, x, y):
+    """element-wise merge of two array payloads (nested lists of values) of the same shape"""
+    if isinstance(x, list) != isinstance(y, list): raise Unsupported("merge arrays of different rank")
+    if not isinstance(x, list): return merge(c, x, y)
+    if len(x) != len(y): raise Unsupported("merge arrays of different shape")
+    return [_merge_arr(c, p, q) for p, q in zip(x, y)]
